@@ -223,9 +223,17 @@ func (m *monC01) Event(ev *hermes.VerifEvent, rc *RunCtx) {
 		}
 		// reported counters agree with the fluxes
 		dSick := (g.SICKER + g.CAPSUM) - m.sicker0
-		expSick := 10 * (m.sumQOut - m.gwauf*m.sumWdt)
+		// the reported net flux through the lower boundary (percolation minus capillary / groundwater supply) is the flux the
+		// water routine actually moved through that boundary. The model additionally books the root uptake from the layer that
+		// holds the groundwater table as "supply from groundwater" although no water enters the profile for it (recorded
+		// finding): a difference of exactly that amount carries its own signature, any other difference is reported as such
+		expSick := 10 * m.sumQOut
 		if math.Abs(dSick-expSick) > tolFor(dSick, expSick)*10 {
-			rc.Violate("C01", "percolation_counter_mismatch", fmt.Sprintf("reported percolation-capillary change %.17g mm != 10*(flux through leaching depth %.17g - groundwater uptake %.17g)", dSick, m.sumQOut, m.gwauf*m.sumWdt), ev.Zeit, 0, nil)
+			sig := "percolation_counter_mismatch"
+			if bookedToo := 10 * (m.sumQOut - m.gwauf*m.sumWdt); m.gwauf > 0 && math.Abs(dSick-bookedToo) <= tolFor(dSick, bookedToo)*10 {
+				sig = "groundwater_uptake_booked_as_supply"
+			}
+			rc.Violate("C01", sig, fmt.Sprintf("reported percolation-minus-supply change %.17g mm != 10 x flux through the leaching depth %.17g cm (root uptake from the groundwater layer today: %.17g cm)", dSick, m.sumQOut, m.gwauf*m.sumWdt), ev.Zeit, 0, nil)
 		}
 		dDr := g.DRAISUM - m.draisum0
 		if math.Abs(dDr-10*m.sumDrain) > tolFor(dDr)*10 {
